@@ -56,7 +56,7 @@ def run(chk):
         "schemas of ~10 structs from the serde profile (every constructor, widths 1..64, ids out of declaration order, enumerators below 256) are "
         "given to the real C++ generator twice (same parsed object; more than half declare services), the second output - which must be the first again - is compiled as C++17 with a generic stdin/stdout driver (a compile error is a failing input), "
         "and for boundary-biased values EncodeJson is compared in Coq with the model (= Wire.v) and DecodeJson of canonical bytes with the value; "
-        "one schema per run is also built as a declaration-permuted twin (C15); non-trivial = value with >= 2 leaves")
+        "for schemas with services the derived rpc envelope structs (<Struct>Input / <Struct>Output) are driven the same way against the derived schema; one schema per run is also built as a declaration-permuted twin (C15); non-trivial = value with >= 2 leaves")
     work = common.scratch_dir("verif_c03_")
     cases, meta, fails = [], [], []
     try:
@@ -147,6 +147,54 @@ def run(chk):
                         fails.append({"kind": "c++-decode-of-canonical", "schema": text, "struct": name, "value": v, "decoded": d, "answer": ans2[:200]})
                     chk.count((text, name, json.dumps(v, sort_keys=True)), nontrivial=len(json.dumps(v)) > 12,
                               sample={"struct": name, "value": v, "bytes": b})
+                # the rpc envelopes: for a schema with services the generator adds <Struct>Input / <Struct>Output structs (service id and
+                # method id as 8-bit enums, then the payload).  They are structs of the generated header like any other: the schema they
+                # are judged against is the derived one (fcp_cpp.rpc.generate_rpc of a copy), read by the harness's own rules.
+                if fcp.services and twin_of is None:
+                    from fcp_cpp.rpc import generate_rpc
+                    try:
+                        dsch = generate_rpc(copy.deepcopy(fcp))
+                    except Exception:
+                        dsch = None
+                    base = {s.name for s in fcp.structs}
+                    for s in ([] if dsch is None else dsch.structs):
+                        if s.name in base:
+                            continue
+                        v, ok = {}, True
+                        for fl in s.fields:
+                            tn = type(fl.type).__name__
+                            if tn == "EnumType":
+                                en = [e for e in dsch.enums if e.name == fl.type.name]
+                                v[fl.name] = chk.rng.choice([x.value for x in en[0].enumeration]) if en and en[0].enumeration else 0
+                            elif tn == "StructType" and fl.type.name in base:
+                                pv = clean_value(chk.rng, fcp, fl.type.name)
+                                ok = ok and pv is not None
+                                v[fl.name] = pv
+                            else:
+                                ok = False
+                        if not ok:
+                            continue
+                        chk.hist("rpc_envelopes", 1)
+                        ans = drv.ask_or_crash(f"E {s.name} {cxx_run.to_json(v)}")
+                        b = list(bytes.fromhex(ans[3:])) if ans.startswith("OK ") else None
+                        canonical = list(ref_wire.wire_bytes(dsch, s.name, v))
+                        dterm = to_coq.schema(dsch)
+                        cases.append(cpair(dterm, cstr(s.name), f"(CEnc {to_coq.struct_value(dsch, s.name, v)} " +
+                                           ("None" if b is None else f"(Some {clist(cz(x) for x in b)})") + ")"))
+                        meta.append((text, s.name, v, "encode", ans[:200]))
+                        if b != canonical:
+                            fails.append({"kind": "c++-encode-not-canonical", "schema": text, "struct": s.name + " (rpc envelope)", "value": v, "encoded": b,
+                                          "canonical": canonical, "answer": ans[:200]})
+                        ans2 = drv.ask_or_crash(f"D {s.name} {bytes(canonical).hex()}")
+                        try:
+                            d = json.loads(ans2[3:]) if ans2.startswith("OK ") else None
+                            d = None if d is None else {k: x for k, x in d.items() if not k.startswith("__")}
+                        except (ValueError, AttributeError):
+                            d = None
+                        if d is None or not to_coq.values_equal(dsch, StructType(s.name), coerce(dsch, StructType(s.name), d), v):
+                            fails.append({"kind": "c++-decode-of-canonical", "schema": text, "struct": s.name + " (rpc envelope)", "value": v, "decoded": d,
+                                          "answer": ans2[:200]})
+                        chk.count((text, s.name, json.dumps(v, sort_keys=True)), nontrivial=True, sample={"struct": s.name, "value": v, "bytes": b})
                 results[tag] = {"values": values, "outs": outs}
                 if twin_of and twin_of in results and results[twin_of]["outs"] != outs:
                     i = next(i for i, (a, b) in enumerate(zip(results[twin_of]["outs"], outs)) if a != b)
